@@ -170,8 +170,9 @@ func (e *SyncedCachedEnforcer) checkOneAndRemoveCache(params ...interface{}) (bo
 
 func (e *SyncedCachedEnforcer) checkManyAndRemoveCache(rules [][]string) (bool, error) {
 	if len(rules) != 0 {
-		irule := make([]interface{}, len(rules[0]))
 		for _, rule := range rules {
+			// one key buffer per rule: rules of a batch need not have the same length
+			irule := make([]interface{}, len(rule))
 			for i, param := range rule {
 				irule[i] = param
 			}
